@@ -30,6 +30,7 @@ ELEM = "ELEM"  # ELEM(iterable): one element of an iterable (loop target)
 LOOP = "LOOP"  # LOOP(value after one iteration): loop-carried variable after the loop
 ENTER = "ENTER"  # ENTER(ctx): value bound by `with ctx as name`
 EXC = "EXC"  # EXC(handler type): value bound by `except T as name`
+SETITEM = "SETITEM"  # SETITEM(container, key, value): a local container after `container[key] = value`
 BIG = "BIG"  # opaque stand-in for an expression that grew too large
 
 
@@ -592,6 +593,11 @@ class Explorer:
                         keys.append(tsub.slice)
                         vals.append(value)
                     st.store[target.value.id] = ast.Dict(keys=keys, values=vals)
+                    return
+            # any other element store into a container held by a local: the container's value now depends on it
+            if isinstance(target.value, ast.Name) and target.value.id in st.store:
+                cur = st.store[target.value.id]
+                st.store[target.value.id] = ast.Call(func=ast.Name(id=SETITEM, ctx=ast.Load()), args=[cur, tsub.slice, value], keywords=[])
 
     def _walrus(self, expr: ast.AST, st: _State, fi, depth) -> None:
         for n in ast.walk(expr):
@@ -758,7 +764,8 @@ class Explorer:
         outer_store = st0.store
         outer_repl = st0.repl
         st = st0.fork()
-        st.store = dict(binding)
+        # a function defined inside a function that is being explored sees that function's locals (closure)
+        st.store = {**outer_store, **binding} if fi.parent is not None and fi.parent in self._stack else dict(binding)
         st.repl = {}
         self._stack.append(fi)
         try:
